@@ -183,6 +183,17 @@ theorem nonset_hash_eq_iff (a b : V) (ha : ∀ xs, a ≠ .set xs) (hb : ∀ xs, 
     cases a <;> cases b <;> simp_all [getHash]
   · rintro rfl; rfl
 
+/-- The hash the backend records for a task argument or result (`record_value`: `get_hash(data=serialize())`)
+is the hash `TypeRegistry.get_hash` computes — so every statement of this file about `getHash` is a statement
+about `Argument.value_hash` / `CallNode.value_hash` / `Value.value_hash` as well. -/
+theorem recordValue_eq_getHash (v : V) : recordValue H v = getHash H v := by
+  cases v <;> rfl
+
+/-- In particular a recorded top-level set of strs does not depend on the layout. -/
+theorem recorded_top_set_str (xs : List V) (hs : ∀ x ∈ xs, ∃ s, x = .str s) (b : V) (h : Sim (.set xs) b) :
+    recordValue H (.set xs) = recordValue H b := by
+  rw [recordValue_eq_getHash, recordValue_eq_getHash]; exact partial_top_set_str H xs hs b h
+
 /-! ## what fails: closed witnesses (finding F9) -/
 private def sa : V := .str [97]
 private def sb : V := .str [98]
